@@ -425,7 +425,11 @@ def _main(prop, prop_mod, tier, seed, ns, t0):
     budget = ns.budget or prop.budgets[tier]
     nshards = ns.shards or prop.shards or min(16, os.cpu_count() or 1)
     if budget > 0:
-        st = run_search(prop, prop_mod, tier, seed, budget, nshards)
+        custom = getattr(prop, "search", None)
+        if custom is not None:
+            st = custom(prop, prop_mod, tier, seed, budget, nshards)
+        else:
+            st = run_search(prop, prop_mod, tier, seed, budget, nshards)
         stats.merge(st)
 
     seen = set()
